@@ -42,7 +42,7 @@ fuzz_target!(|data: &[u8]| {
             label_map.insert("v".to_string(), Label::new(LabelType::DATA, 0, w(13) as usize));
             let mut fn_map = std::collections::HashMap::new();
             fn_map.insert("f".to_string(), 0usize);
-            let mut ctx = InterpreterContext { fn_map, label_map, call_stack: if st[27] & 1 == 1 { vec![3] } else { vec![] } };
+            let mut ctx = InterpreterContext { fn_map, label_map, call_stack: if st[27] & 1 == 1 { vec![3] } else { vec![] }, ..Default::default() };
             for line in s.split('\n').take(8) {
                 let mut n = 0;
                 loop {
